@@ -15,8 +15,13 @@ spec -> code: ThreadPool_Export enumerates every call shape of the model (n, thr
               each is run on the real map_async several times under perturbed
               schedules (switch interval 1 us, seeded yields/sleeps in the input iterator and in
               the functors).
+              Slow producers: ThreadPool_Export also enumerates, for every input length and thread
+              count, an input that pauses for 0.25 s (real time, longer than any polling interval a
+              worker might use) before handing out item p, for every position p (and before ending):
+              the workers sit on an empty queue and must block, not leave.  These calls run a dozen
+              at a time since they mostly sleep.
 code -> spec: seeded random calls (0..50 items, 1..8 threads, list / tuple / generator inputs,
-              per-thread args, raising inputs).
+              per-thread args, raising inputs), plus random slow producers (1-2 pauses in 1..20 items).
 Every run logs feed / take / emit / end / done events to one list (append is atomic under the
 GIL; no wall clock) and ThreadPool_Trace walks the log as the projection of the model:
 Item_taken_before_fed, Item_taken_twice on every take; Item_not_processed, Result_missing,
@@ -41,6 +46,9 @@ class InputError(Exception):
     pass
 
 
+PAUSE = 0.25  # seconds a slow producer stays silent: longer than any plausible polling interval of a worker
+
+
 def one_run(mods, case, seed):
     """Run the real map_async once (style "regen": through the real regen_repository / regen_iter worker);
     return the event list of the run (without tid/i)."""
@@ -48,6 +56,7 @@ def one_run(mods, case, seed):
     n, threads, haslen, style = case["n"], case["threads"], case["haslen"], case["style"]
     out = case["out"]  # list, out[i-1] for item i
     fail_at = case.get("fail_at", -1)  # raise after that many items were handed out (-1: never)
+    pauses = set(case.get("pauses") or ())  # the input pauses before handing out these items (n + 1: before it ends)
     r = random.Random(seed)
     naps = [r.choice((0, 0, 1, 1, 2, 3)) for _ in range(3 * n + 8)]
     log = []
@@ -66,9 +75,13 @@ def one_run(mods, case, seed):
         for i in range(1, n + 1):
             if fail_at == i - 1:
                 raise InputError(i)
+            if i in pauses:
+                time.sleep(PAUSE)
             log.append(("feed", i))
             nap(i)
             yield i
+        if n + 1 in pauses:
+            time.sleep(PAUSE)
         if fail_at == n:
             raise InputError(n)
 
@@ -162,10 +175,10 @@ def one_run(mods, case, seed):
 BLANK = dict(ev="", n=0, threads=0, haslen=False, failing=False, item=0, w=0, a=0, b=0, raised=False, hung=False, results=[])
 
 
-def mc_cfg(items, thr, fair, mayfail=True, rule="perworker", quit_=False):
+def mc_cfg(items, thr, fair, mayfail=True, rule="perworker", quit_=False, idle=False):
     inv = "INVARIANT TypeOK\nINVARIANT AtMostOnce\nINVARIANT NoPhantom\nINVARIANT ResultsSound\nINVARIANT ExactlyOnceAtReturn\nINVARIANT NoStuck\n"
     return (f"SPECIFICATION {'FairSpec' if fair else 'Spec'}\nCONSTANTS\n MaxItems = {items}\n MaxThreads = {thr}\n"
-            f" MayFail = {'TRUE' if mayfail else 'FALSE'}\n SentinelRule = \"{rule}\"\n QuitOnEmpty = {'TRUE' if quit_ else 'FALSE'}\n" + inv + ("PROPERTY Termination\n" if fair else ""))
+            f" MayFail = {'TRUE' if mayfail else 'FALSE'}\n SentinelRule = \"{rule}\"\n QuitOnEmpty = {'TRUE' if quit_ else 'FALSE'}\n QuitWhenIdle = {'TRUE' if idle else 'FALSE'}\n" + inv + ("PROPERTY Termination\n" if fair else ""))
 
 
 def run(ck):
@@ -187,8 +200,8 @@ def run(ck):
     events, runs = [], []  # runs[tid] = (case, seed, raised)
     hung_total = [0]
 
-    def execute(case, seed):
-        evs, raised, hung = one_run(mods, case, seed)
+    def execute(case, seed, done=None):
+        evs, raised, hung = done or one_run(mods, case, seed)
         tid = len(runs)
         runs.append((case, seed, raised))
         for i, e in enumerate(evs):
@@ -202,6 +215,16 @@ def run(ck):
         hung_total[0] += hung
         if hung_total[0] >= 3:
             raise StopIteration
+
+    def execute_slow(batch):
+        """Calls with a pausing input spend their time asleep: run a dozen of them side by side (every call has
+        its own log, queue and threads), then record them in order."""
+        from concurrent.futures import ThreadPoolExecutor
+
+        with ThreadPoolExecutor(12) as ex:
+            results = list(ex.map(lambda cs: one_run(mods, cs[0], cs[1]), batch))
+        for (case, seed), res in zip(batch, results):
+            execute(case, seed, done=res)
 
     old_si = sys.getswitchinterval()
     sys.setswitchinterval(1e-6)
@@ -229,16 +252,27 @@ def run(ck):
                                 expect_ok=False, label="MC:ThreadPool_MC worker stops consuming after an empty item (must violate)")
                     if bad.violated != "ExactlyOnceAtReturn":
                         raise tlc.MachineryError(f"quitting-worker variant was not rejected as expected: {bad.violated}")
+                    bad = ck.mc("ThreadPool_MC", cfg_text=mc_cfg(2, 2, False, mayfail=False, idle=True), workers=1, timeout=200,
+                                expect_ok=False, label="MC:ThreadPool_MC worker takes an empty queue for the end (must violate)")
+                    if bad.violated != "ExactlyOnceAtReturn":
+                        raise tlc.MachineryError(f"idle-quitting variant was not rejected as expected: {bad.violated}")
                 # 2. spec -> code
                 mi, mt = ck.pick((3, 3), (4, 3))
                 shapes = ck.export("ThreadPool_Export", cfg_text=f"CONSTANTS\n MaxItems = {mi}\n MaxThreads = {mt}\n")
                 ck.exhaustive = False
                 ck.extra["call_shapes_enumerated"] = len(shapes)
                 reps = ck.pick(1, 3)
+                slow = []
                 for c in shapes:
+                    case = dict(n=c["n"], threads=c["threads"], haslen=c["haslen"], style=c["style"], out=list(c["out"]),
+                                kinds=list(c["kinds"]), pauses=list(c["pauses"]))
+                    if case["pauses"]:
+                        slow.append((case, 7))
+                        continue
                     for k in range(reps):
-                        execute(dict(n=c["n"], threads=c["threads"], haslen=c["haslen"], style=c["style"], out=list(c["out"]),
-                                     kinds=list(c["kinds"])), 1000 * k + 7)
+                        execute(case, 1000 * k + 7)
+                ck.extra["slow_producer_shapes"] = len(slow)
+                execute_slow(slow)
                 ck.sample(dict(direction="spec->code", shape=shapes[len(shapes) // 2]))
                 # 3. code -> spec
                 r_ = rng(41)
@@ -252,6 +286,16 @@ def run(ck):
                     if r_.random() < 0.1:
                         case["fail_at"] = r_.randint(0, n)
                     execute(case, r_.randint(0, 10**6))
+                slow = []
+                for k in range(ck.pick(12, 150)):  # slow producers: one or two pauses anywhere in a longer input
+                    n = r_.randint(1, 20)
+                    case = dict(n=n, threads=r_.randint(1, 8), haslen=r_.random() < 0.5, style=r_.choice(["gen", "ret", "regen"]),
+                                out=[r_.choice([0, 1, 1, 2]) for _ in range(n)], pauses=sorted(r_.sample(range(1, n + 2), r_.randint(1, min(2, n)))))
+                    if case["style"] == "regen":
+                        case["kinds"] = [r_.choice(["ok", "ok", "meta", "err"]) for _ in range(n)]
+                        case["out"] = [1 if k_ == "err" else 0 for k_ in case["kinds"]]
+                    slow.append((case, r_.randint(0, 10**6)))
+                execute_slow(slow)
                 ck.sample(dict(direction="code->spec", call={k: v for k, v in runs[-1][0].items() if k != "out"},
                                log=[{k: v for k, v in e.items() if k in ("ev", "item", "w", "a", "b")}
                                     for e in events if e["tid"] == len(runs) - 1][:12]))
